@@ -34,7 +34,8 @@ func (ru *Rule) guard(fn *ssa.Function, what string, targets []ssa.Instruction, 
 	}
 	for _, t := range targets {
 		t := t
-		q := &Cut{Fn: fn, From: from, Target: func(in ssa.Instruction) bool { return in == t }, EdgeCut: edges, Assume: assume}
+		// a return whose error value is not a constant is a failing exit on the paths that found it non-nil
+		q := &Cut{Fn: fn, From: from, Target: func(in ssa.Instruction) bool { return in == t }, EdgeCut: anyEdge(edges, failCut(t)), Assume: assume}
 		w, n := q.Run(c)
 		key := fmt.Sprintf("%s: %s guarded-by %s", fnKey(fn), what, guardName)
 		if w == "" {
